@@ -91,7 +91,7 @@ case_st = st.fixed_dictionaries({
     "nservers": st.integers(2, 3),
     "start": st.fixed_dictionaries({"server": st.integers(0, 2), "dirs": st.lists(dir_seg, max_size=2),
                                     "leaf": seg_body, "qargs": qargs_st}),
-    "hops": st.lists(hop_st, max_size=4),
+    "hops": st.sampled_from([0, 1, 1, 2, 2, 3, 3, 4, 4]).flatmap(lambda n: st.lists(hop_st, min_size=n, max_size=n)),
 })
 
 
@@ -364,7 +364,7 @@ def work(shard, seed, tier):
                     for sig, what in fails:
                         acc.fail(sig, what, case)
         return acc
-    n = 10 if tier == "quick" else 75
+    n = 25 if tier == "quick" else 75
 
     def execute(case):
         nt, cls = classify(case)
@@ -374,7 +374,7 @@ def work(shard, seed, tier):
             acc.note("a chain hit the service-round bound over real sockets: inconclusive")
             cls = cls + ["inconclusive"]
         return Outcome(fails, nontrivial=nt, classes=cls, key=case)
-    campaign(acc, case_st, execute, n, seed * 1000 + shard["i"], budget=Budget(30 if tier == "quick" else 420),
+    campaign(acc, case_st, execute, n, seed * 1000 + shard["i"], budget=Budget(90 if tier == "quick" else 420),
              shrink_examples=60)
     return acc
 
